@@ -66,6 +66,14 @@ Section Lin.
     | x :: r => (x, r) :: map (fun p => (fst p, x :: snd p)) (picks r)
     end.
 
+  (* existsb that stops at the first hit (vm_compute is call-by-value: || and && evaluate both
+     arguments, so the search is written with if-then-else) *)
+  Fixpoint anyb {A : Type} (f : A -> bool) (l : list A) : bool :=
+    match l with
+    | [] => false
+    | x :: r => if f x then true else anyb f r
+    end.
+
   (* depth-first search over all orders that respect real time (Wing & Gong) *)
   Fixpoint search (finb : St -> bool) (fuel : nat) (st : St) (rem : list (orec Op Out)) : bool :=
     match rem with
@@ -74,10 +82,12 @@ Section Lin.
         match fuel with
         | O => false
         | S f =>
-            existsb (fun p => minimal (fst p) (snd p) &&
-                              acc st (o_op (fst p)) (o_out (fst p)) &&
-                              search finb f (nxt st (o_op (fst p))) (snd p))
-                    (picks rem)
+            anyb (fun p => if minimal (fst p) (snd p) then
+                             if acc st (o_op (fst p)) (o_out (fst p)) then
+                               search finb f (nxt st (o_op (fst p))) (snd p)
+                             else false
+                           else false)
+                 (picks rem)
         end
     end.
 
